@@ -46,6 +46,11 @@ def gen_case(rng: random.Random, tier: str) -> dict:
         for fi in range(2 if rng.random() < 0.3 else 1):
             nd, _d = rng.choice(fns)
             faults.append({"kind": "raise", "node": nd["name"], "inv": rng.choice([0, 0, 1, None]), "when": rng.choice(["before", "after"]), "fid": fi, "exc": rng.choice(gen.EXC_KINDS)})
+    if fns and rng.random() < 0.12:
+        # a node function that re-seeds the global random module before sampling (span ids must not come from there)
+        plain = [nd for nd, _d in fns if not nd.get("beh") and not nd.get("gen") and len(nd.get("outs", [])) == 1]
+        if plain:
+            rng.choice(plain)["beh"] = "reseed"
     ext = [e for e in g["ext"] if e not in g["lists"]]
     return {
         "graph": g,
